@@ -53,6 +53,9 @@ def result_fates(prog, body):
             continue
         fate, detail = _fate_of_local(prog, body, dest[0], set())
         out.append(Site(bb, t.get("line"), c, fate, detail, dty))
+        if not fate.startswith("dropped") and _selects_err_variants(body, dest[0]):
+            # `match r { Err(E::A(..)) => .., other => other? }`: some variants of the error take a path of their own
+            out.append(Site(bb, t.get("line"), c, "dropped:selected-variants", "the variant of the Err payload is tested: some errors are handled apart from the rest", dty))
     return out
 
 
@@ -247,3 +250,24 @@ def _err_arm_supplies_value(body, bb, discr_lhs):
                     changed = True
     common = payload & assigned(only_err)
     return bool(common)
+
+
+def _selects_err_variants(body, local, depth=4):
+    """is the discriminant of `(local as Err).0` read (through plain moves of the Result)?"""
+    work, seen = [(local, depth)], set()
+    while work:
+        l, d = work.pop()
+        if l in seen or d <= 0:
+            continue
+        seen.add(l)
+        for b, i, st in body.all_stmts():
+            rv = st.get("rv") or {}
+            if rv.get("k") == "discr":
+                pl = P(rv["place"])
+                if pl[0] == l and "as Err" in [str(z) for z in pl[1]] and str(pl[1][-1]) != "as Err":
+                    return True
+            if rv.get("k") == "use" and st.get("lhs") and not st["lhs"][1]:
+                src = op_place(rv.get("op"))
+                if src is not None and src[0] == l and not src[1]:
+                    work.append((st["lhs"][0], d - 1))
+    return False
